@@ -21,7 +21,9 @@ abbrev Val := Option Nat          -- Python value; `none` is `None`
 
 /-- exception identities -/
 inductive Exc where
-  | user (n : Nat)        -- an application exception object (identity `n`)
+  | user (n : Nat)        -- an application exception object (identity `n`), an `Exception`
+  | base (n : Nat)        -- an exception object that is a BaseException only (KeyboardInterrupt, SystemExit,
+                          -- asyncio.CancelledError): not caught by `except <application exception>`
   | genExit               -- GeneratorExit
   | typeErr               -- TypeError: can't send non-None value to a just-started generator
   | ignoredExit           -- RuntimeError: generator ignored GeneratorExit
@@ -162,7 +164,7 @@ inductive Instr where
   | yield (v : Val)           -- last = yield v
   | yieldLast                 -- last = yield last
   | ret (v : Val)             -- return v
-  | raise (e : Nat)           -- raise E[e]
+  | raise (e : Exc)           -- raise E[e]  (also GeneratorExit and BaseException-only objects)
   | try_
   | catch_ (all : Bool)       -- `except Thrown` / bare `except` (also GeneratorExit, runtime errors)
   | endcatch
@@ -259,7 +261,7 @@ def runCode (child : Nat → Inp → World → Out × World) (i : Nat) :
     | .yield v => (.yielded v, w.setGen i { g with code := rest })
     | .yieldLast => (.yielded g.last, w.setGen i { g with code := rest })
     | .ret v => (.returned v, w.setGen i { g with code := [] })
-    | .raise e => runCode child i rest (.prop (.user e) 0) g w
+    | .raise e => runCode child i rest (.prop e 0) g w
     | .try_ => runCode child i rest .normal g w
     | .catch_ _ => runCode child i rest (.skip 0) g w
     | .endcatch => runCode child i rest .normal g w
